@@ -261,6 +261,12 @@ func (s *Store) createODSFile(
 		if err != nil {
 			return false, err
 		}
+		// the existing file may be a leftover of an interrupted ODSQ4 put. Its Q4 file, if incomplete,
+		// would be opened lazily by the accessor and served, so it has to go.
+		err = s.dropPartialQ4(square, roots, height)
+		if err != nil {
+			return false, err
+		}
 	}
 
 	// create hard link with height as name
@@ -299,6 +305,25 @@ func (s *Store) validateAndRecoverODS(
 	err = file.CreateODS(pathODS, roots, square)
 	if err != nil {
 		return fmt.Errorf("recreating ODS file: %w", err)
+	}
+	return nil
+}
+
+// dropPartialQ4 removes the Q4 file of the block if it exists and is not complete.
+func (s *Store) dropPartialQ4(
+	square *rsmt2d.ExtendedDataSquare,
+	roots *share.AxisRoots,
+	height uint64,
+) error {
+	pathQ4 := s.hashToPath(roots.Hash(), q4FileExt)
+	err := file.ValidateQ4Size(pathQ4, square)
+	if err == nil || errors.Is(err, os.ErrNotExist) {
+		return nil
+	}
+	log.Warnf("Q4 file with height %d is corrupted, removing", height)
+	err = s.removeQ4(height, roots.Hash())
+	if err != nil {
+		return fmt.Errorf("removing corrupted Q4 file: %w", err)
 	}
 	return nil
 }
